@@ -7,7 +7,6 @@ import (
 	"fmt"
 	"math/rand"
 	"path/filepath"
-	"runtime/debug"
 	"sort"
 	"strings"
 
@@ -45,19 +44,8 @@ func slabidStream(cfg *Config) (res *hx.Stats) {
 	st.TraceFiles = append(st.TraceFiles, w.Path)
 	rng := rand.New(rand.NewSource(cfg.Seed*7919 + 11))
 	e := &sidEnv{w: w, st: st, cfg: cfg, rng: rng}
-	defer func() {
-		if r := recover(); r != nil {
-			// a panic inside a library call on the ordinary inputs of this stream is a verdict about the
-			// tree, whatever property the stream was run for: a violation carrying the panic text and the
-			// library frames, at the trace position of the call (the statistics are still returned: the
-			// named result, not the nil a recovered function would otherwise hand back)
-			st.HarnessErr = fmt.Sprintf("slabid stream panicked: %v", r)
-			st.Violations = append(st.Violations, hx.Violation{Property: "*", Stream: "slabid", Seed: cfg.Seed, Program: st.Programs,
-				What: fmt.Sprintf("panic during the request that follows trace line %d: %v%s", w.Lines, r, libraryFrames(debug.Stack())), Trace: w.Path, Line: w.Lines})
-			res = st
-		}
-		st.TraceLines = w.Lines
-	}()
+	defer func() { st.TraceLines = w.Lines }()
+	defer recoverAsViolation(st, w, &res)
 
 	// --- Part A: identifier functions on boundary x boundary and random identifiers
 	addrs := boundaryWords(rng, 6)
@@ -960,35 +948,4 @@ func (e *sidEnv) persistGenProgram(addrs [][8]byte) {
 			e.violation("C09", fmt.Sprintf("GenerateSlabID(%x) returned %s", a, id))
 		}
 	}
-}
-
-// libraryFrames cuts the frames of the library under test (and the harness function that called
-// it) out of a stack dump: " [atree.SlabID.ToRawBytes slab_id.go:98 <- main.(*sidEnv).idLine slabid.go:210]".
-func libraryFrames(stack []byte) string {
-	lines := strings.Split(string(stack), "\n")
-	var out []string
-	for i := 0; i+1 < len(lines) && len(out) < 6; i++ {
-		fn := strings.TrimSpace(lines[i])
-		loc := strings.TrimSpace(lines[i+1])
-		if !strings.Contains(fn, "(") || !strings.Contains(loc, ".go:") {
-			continue
-		}
-		lib := strings.Contains(fn, "onflow/atree.") || strings.Contains(fn, "onflow/atree/")
-		if !lib && !(len(out) > 0 && strings.HasPrefix(fn, "main.")) {
-			continue
-		}
-		if k := strings.LastIndex(fn, "("); k > 0 {
-			fn = fn[:k]
-		}
-		fn = fn[strings.LastIndex(fn, "/")+1:]
-		loc = strings.Fields(loc)[0]
-		out = append(out, fn+" "+loc[strings.LastIndex(loc, "/")+1:])
-		if !lib {
-			break
-		}
-	}
-	if len(out) == 0 {
-		return ""
-	}
-	return " [" + strings.Join(out, " <- ") + "]"
 }
